@@ -105,6 +105,113 @@ let op_rl_ls _ =
   emit (Printf.sprintf "rl_ls files=%s cur=%d eps=%s lmt=%s" (if fs = [] then "-" else String.concat "," fs) (List.length st.rl_cur)
           (String.concat "," eps) (zs st.rl_lmt))
 
+
+(* ---------------- oracle: the extracted Gallina checks (RlObs.v) over the IMPLEMENTATION's trace ---------------- *)
+let rl_digest_entry e = { e with rl_e_msg = zl_of_string (rl_item_string (RlOutMsg e.rl_e_msg)) }
+let split_on c s = if s = "-" || s = "" then [] else String.split_on_char c s
+
+let oracle_c12_case script trace =
+  out := open_out "/dev/null";
+  let tr = ref trace and err = ref None in
+  let fail m = if !err = None then err := Some m in
+  let pop () = match !tr with
+    | [] -> fail "crash missing-observation"; ""
+    | l :: r -> tr := r; if is_bad_line l then fail ("crash " ^ l); l in
+  let main = ref !rl_state and intact = ref !rl_state in
+  let on st f = rl_state := !st; f (); st := !rl_state in
+  let both f = on main f; on intact f in
+  let obs_eps : (int * int) array ref = ref [||] and obs_files = ref [] and obs_cur = ref 0 and have_obs = ref false in
+  let damaged = ref false and corrupted = ref false in
+  let pending_timer = ref None and pending_restart = ref None in
+  let eps_obs () = List.mapi (fun i e -> if !have_obs && i < Array.length !obs_eps
+                                then { e with rl_ep_pos = z_of_int (fst (!obs_eps).(i)); rl_ep_rpos = z_of_int (snd (!obs_eps).(i)) } else e) (!main).rl_eps in
+  List.iter (fun line -> if !err = None then
+    match parse_line line with
+    | Some ("now", a) -> now := tnum (List.hd a.pos)
+    | Some ("rl_init", a) -> both (fun () -> op_rl_init a); damaged := false; corrupted := false; have_obs := false;
+                             pending_timer := None; pending_restart := None
+    | Some ("rl_relay", a) -> ignore (pop ()); both (fun () -> op_rl_relay a)
+    | Some ("rl_conn", a) ->
+      let l = pop () in
+      if !err = None then begin
+        let id = num a "e" 0 in
+        let ep = List.nth (eps_obs ()) (id - 1) in
+        let items = split_on ',' (match tok_val (toks_of l) "out" with Some v -> v | None -> "-") in
+        let msgs = List.filter (fun s -> String.length s > 0 && s.[0] = 'M') items in
+        let delivered = List.map zl_of_string msgs in
+        let pos = int_of_z ep.rl_ep_pos in
+        List.iter (fun m -> match String.split_on_char ':' m with
+                    | [_; _; _; ts] when int_of_string ts >= 0 && int_of_string ts <= pos && not !damaged ->
+                      fail (Printf.sprintf "resend e=%d pos=%d item=%s" id pos m)
+                    | _ -> ()) msgs;
+        if int_of_z ep.rl_ep_dur = 0 then begin
+          if msgs <> [] then fail (Printf.sprintf "replay-mismatch e=%d log_duration=0 but got=%s" id (String.concat "," msgs)) end
+        else if not !damaged then begin
+          let log = List.map rl_digest_entry (rl_log_entries !main) in
+          if not (rl_or_replay rl_topo0 ep.rl_ep_zone ep.rl_ep_pos log delivered) then
+            fail (Printf.sprintf "replay-mismatch e=%d pos=%d got=%s" id pos (String.concat "," msgs)) end
+        else begin
+          let log = List.map rl_digest_entry (rl_log_entries !intact) in
+          if not (rl_or_damaged rl_topo0 ep.rl_ep_zone ep.rl_ep_pos log delivered) then begin
+            if !corrupted && not (rl_strict_b (rl_log_entries !main)) then
+              fail (Printf.sprintf "corrupt-timestamp-hides-later-entries e=%d pos=%d got=%s" id pos (String.concat "," msgs))
+            else fail (Printf.sprintf "damaged-intact-missing e=%d pos=%d got=%s" id pos (String.concat "," msgs)) end end
+      end;
+      both (fun () -> op_rl_conn a)
+    | Some ("rl_ls", _) ->
+      let l = pop () in
+      if !err = None then begin
+        let t = toks_of l in
+        let files = List.map (fun s -> match String.split_on_char ':' s with [n; z] -> (int_of_string n, int_of_string z) | _ -> (0, 0))
+                      (split_on ',' (match tok_val t "files" with Some v -> v | None -> "-")) in
+        let cur = match tok_val t "cur" with Some v -> int_of_string v | None -> 0 in
+        let eps = Array.of_list (List.map (fun s -> match String.split_on_char '/' s with p :: r :: _ -> (int_of_string p, int_of_string r) | _ -> (0, 0))
+                      (split_on ',' (match tok_val t "eps" with Some v -> v | None -> "-"))) in
+        (match !pending_timer with
+         | Some (tnow, before, eps0) ->
+           if not (rl_or_cleanup rl_topo0 (z_of_int tnow) eps0 (List.map z_of_int before) (List.map (fun (n, _) -> z_of_int n) files)) then
+             fail (Printf.sprintf "cleanup-unsafe now=%d before=%s after=%s" tnow (String.concat "," (List.map string_of_int before))
+                     (String.concat "," (List.map (fun (n, _) -> string_of_int n) files)))
+         | None -> ());
+        (match !pending_restart with
+         | Some (bf, bc) ->
+           let zp = List.map (fun (n, z) -> (z_of_int n, z_of_int z)) in
+           if not (rl_or_restart (zp bf) (zp files) (z_of_int bc) (z_of_int cur)) then fail "restart-lost files or current changed across a crash restart"
+         | None -> ());
+        pending_timer := None; pending_restart := None;
+        obs_eps := eps; obs_files := files; obs_cur := cur; have_obs := true
+      end
+    | Some ("rl_timer", a) ->
+      ignore (pop ());
+      if !have_obs then pending_timer := Some (!now, List.map fst !obs_files, eps_obs ());
+      both (fun () -> op_rl_timer a)
+    | Some ("rl_restart", a) ->
+      if !have_obs && num a "clean" 0 = 0 then pending_restart := Some (!obs_files, !obs_cur);
+      have_obs := false;
+      both (fun () -> op_rl_restart a)
+    | Some ("rl_recv", a) ->
+      let id = num a "e" 0 in
+      rl_state := !main;
+      if (rl_get id).rl_ep_conn then begin
+        let l = pop () in
+        if !err = None && !have_obs then begin
+          let rpos = snd (!obs_eps).(id - 1) in
+          let acc = (match tok_val (toks_of l) "accepted" with Some "0" -> false | _ -> true) in
+          if not (rl_or_recv (z_of_int rpos) (z_of_int (num a "ts" 0)) acc) then
+            fail (Printf.sprintf "receiver-accepted-old e=%d ts=%d position=%d" id (num a "ts" 0) rpos) end end;
+      have_obs := false;
+      both (fun () -> op_rl_recv a)
+    | Some ("rl_ack", a) -> have_obs := false; both (fun () -> op_rl_ack a)
+    | Some ("rl_disc", a) -> both (fun () -> op_rl_disc a)
+    | Some ("rl_rotate", a) -> have_obs := false; both (fun () -> op_rl_rotate a)
+    | Some ("rl_trunc", a) -> damaged := true; have_obs := false; both (fun () -> op_rl_trunc a)
+    | Some ("rl_corrupt", a) ->
+      damaged := true; corrupted := true; have_obs := false;
+      if num a "lax" 0 <> 0 then ignore (pop ());
+      on main (fun () -> op_rl_corrupt a); on intact (fun () -> op_rl_trunc a)
+    | _ -> ()) script;
+  !err
+
 let () =
   register_op "rl_init" op_rl_init;
   register_op "rl_relay" op_rl_relay;
@@ -117,4 +224,5 @@ let () =
   register_op "rl_timer" op_rl_timer;
   register_op "rl_trunc" op_rl_trunc;
   register_op "rl_corrupt" op_rl_corrupt;
-  register_op "rl_ls" op_rl_ls
+  register_op "rl_ls" op_rl_ls;
+  register_oracle "C12" oracle_c12_case
